@@ -1,6 +1,6 @@
 (** C15 — the boolean hypotheses the correspondence run evaluates per case ([doc_equiv_b], [parsed_positions_b] in
     [Corr.agree]) imply the hypotheses of C15_routes_agree. *)
-From V Require Import Base.Util Gql.Ast Writer.Wop C15.Model C15.Spec C15.Proofs1 C15.Proofs2 C15.Proofs3 C15.Proofs5 C15.Reify C15.CheckRespects C15.Corr.
+From V Require Import Base.Util Gql.Ast Writer.Wop C15.Model C15.Spec C15.Proofs1 C15.Proofs2 C15.Proofs3 C15.Proofs5 C15.Reify C15.CheckRespects C15.EmitSim C15.EmitIface C15.EmitDen C15.Corr.
 
 Definition routes_agree_for_corr := routes_agree.
 
@@ -251,5 +251,37 @@ Proof.
   destruct (check_respects_equiv st meta M D Hok He Hp) as [Sj [Hj Hc]]. unfold introspect in Hj.
   match goal with E : res_eqb schema_eqb _ out_json = true |- _ => rewrite Hj in E; destruct out_json as [so|e]; cbn [res_eqb] in E; [|discriminate];
     apply schema_eqb_eq in E; subst so end.
-  exists Sj. split; [reflexivity|]. apply Hc. assumption.
+  exists Sj. split; [reflexivity|]. apply Hc.
+  repeat match goal with E : (match Ok Sj with Ok _ => _ | Err _ => _ end) = true |- _ => cbn beta iota in E end. split_andb. assumption.
+Qed.
+
+(** ... and the aliases exported on the two routes admit the same values (C15_alias_denotations_agree; its computable guards
+    are evaluated by [agree] with the scalar configuration [guard_opts]), for the case's own SDL document and the
+    implementation's own JSON-route Schema, when the introspection result does not list the introspection types. *)
+Theorem certified_alias_denotations st M D J out_sdl out_json docs :
+  agree (CRoutes false true st false [] M D J out_sdl out_json docs) = true ->
+  exists Sj, out_json = Ok Sj /\
+    forall t nssA nssD T bodyA bodyD,
+      V.C10.Model.schema_decls guard_opts (type_system_to_ast Sj) = V.C10.Model.Ok nssA ->
+      V.C10.Model.schema_decls guard_opts D = V.C10.Model.Ok nssD ->
+      vis_of M T = true -> V.C10.Spec.applicable (type_system_to_ast Sj) t T = true ->
+      V.C10.Spec.alias_of (V.C10.Spec.namespace_of nssA t) T = Some bodyA ->
+      V.C10.Spec.alias_of (V.C10.Spec.namespace_of nssD t) T = Some bodyD ->
+      forall v,
+        (Ts.TsDen.In_type (V.C10.Spec.ns_env (V.C10.Spec.namespace_of nssA t)) bodyA v <->
+         Ts.TsDen.In_type (V.C10.Spec.ns_env (V.C10.Spec.namespace_of nssD t)) bodyD v)
+        /\ (Ts.TsDen.NotIn_type (V.C10.Spec.ns_env (V.C10.Spec.namespace_of nssA t)) bodyA v <->
+            Ts.TsDen.NotIn_type (V.C10.Spec.ns_env (V.C10.Spec.namespace_of nssD t)) bodyD v).
+Proof.
+  intros H. destruct (agree_routes_gives_hypotheses _ _ _ _ _ _ _ _ H) as [Hok [He Hp]].
+  cbn [agree orb listed_in] in H. split_andb.
+  match goal with E : json_eqb _ J = true |- _ => apply json_eqb_eq in E; subst J end.
+  destruct (alias_denotations_agree st false M D Hok He Hp) as [Sj [Hj Hc]]. unfold introspect in Hj.
+  match goal with E : res_eqb schema_eqb _ out_json = true |- _ => rewrite Hj in E; destruct out_json as [so|e]; cbn [res_eqb] in E; [|discriminate];
+    apply schema_eqb_eq in E; subst so end.
+  exists Sj. split; [reflexivity|].
+  repeat match goal with E : (match Ok Sj with Ok _ => _ | Err _ => _ end) = true |- _ => cbn beta iota in E end. split_andb.
+  match goal with E : emit_guard_b false M D Sj = true |- _ => unfold emit_guard_b in E; cbn [orb] in E end. split_andb.
+  intros t nssA nssD T bodyA bodyD HdA HdD Hv Happ HaA HaD v.
+  exact (Hc guard_opts t nssA nssD T bodyA bodyD ltac:(assumption) ltac:(assumption) HdA HdD ltac:(assumption) ltac:(assumption) ltac:(assumption) Hv Happ HaA HaD v).
 Qed.
